@@ -15,13 +15,7 @@ pub fn generate(prop: &str, tier: &str, seed: u64, out: &str, shards: usize, his
     // a clean, known memory for the register-only sweeps
     let _ = mach.reset(&Regs::default(), 0, 0, &[], &[]);
     match prop {
-        "C01" => {
-            gen_c01(&asm, &mut mach, &mut rng, &mut sh, thorough);
-            if let Some(tables) = histories {
-                // thorough: every word pair; quick: every 251st b (a full lattice of a)
-                crate::checks2::sweep16(tables, &mut sh, if thorough { 1 } else { 251 });
-            }
-        }
+        "C01" => gen_c01(&asm, &mut mach, &mut rng, &mut sh, thorough),
         "C02" => gen_c02(&asm, &mut mach, &mut rng, &mut sh, thorough),
         "C03" => gen_c03(&asm, &mut mach, &mut rng, &mut sh, thorough),
         "C06" => gen_c06(&asm, &mut mach, &mut rng, &mut sh, thorough),
